@@ -24,6 +24,8 @@ pub struct Script {
     /// repeated after the script is exhausted
     pub default: usize,
     pub family: &'static str,
+    /// longest run of consecutive faults the source will serve (a correct reader retries all of them)
+    pub max_consecutive: u32,
 }
 
 impl Script {
@@ -32,6 +34,7 @@ impl Script {
             steps: vec![],
             default: usize::MAX,
             family: "whole",
+            max_consecutive: MAX_CONSECUTIVE_FAULTS,
         }
     }
     pub fn hash(&self) -> u64 {
@@ -88,7 +91,7 @@ impl Source {
             Step::Give(self.script.default)
         };
         match s {
-            Step::Fault if self.consecutive_faults >= MAX_CONSECUTIVE_FAULTS => Step::Give(1),
+            Step::Fault if self.consecutive_faults >= self.script.max_consecutive => Step::Give(1),
             s => s,
         }
     }
@@ -225,6 +228,7 @@ pub const FAMILIES: &[&str] = &[
     "geometric",
     "fault_every_boundary",
     "random_mix",
+    "fault_burst",
 ];
 
 /// `sys` selects the systematic parameter (cut position, fragment size) where the family has one.
@@ -236,6 +240,7 @@ pub fn gen_script(r: &mut Rng, family: usize, stream_len: usize, sys: u64) -> Sc
             steps: vec![],
             default: 1,
             family: "one_byte",
+            max_consecutive: MAX_CONSECUTIVE_FAULTS,
         },
         2 => {
             let c = (sys as usize % len).max(1);
@@ -243,6 +248,7 @@ pub fn gen_script(r: &mut Rng, family: usize, stream_len: usize, sys: u64) -> Sc
                 steps: vec![Step::Give(c)],
                 default: usize::MAX,
                 family: "single_cut",
+                max_consecutive: MAX_CONSECUTIVE_FAULTS,
             }
         }
         3 => {
@@ -260,6 +266,7 @@ pub fn gen_script(r: &mut Rng, family: usize, stream_len: usize, sys: u64) -> Sc
                 steps,
                 default: usize::MAX,
                 family: "single_cut_fault",
+                max_consecutive: MAX_CONSECUTIVE_FAULTS,
             }
         }
         4 => {
@@ -275,12 +282,14 @@ pub fn gen_script(r: &mut Rng, family: usize, stream_len: usize, sys: u64) -> Sc
                 steps,
                 default: usize::MAX,
                 family: "two_cuts",
+                max_consecutive: MAX_CONSECUTIVE_FAULTS,
             }
         }
         5 => Script {
             steps: vec![],
             default: 2 + (sys as usize % 16),
             family: "fixed_size",
+            max_consecutive: MAX_CONSECUTIVE_FAULTS,
         },
         6 => {
             let mut steps = vec![];
@@ -295,6 +304,7 @@ pub fn gen_script(r: &mut Rng, family: usize, stream_len: usize, sys: u64) -> Sc
                 steps,
                 default: typical,
                 family: "geometric",
+                max_consecutive: MAX_CONSECUTIVE_FAULTS,
             }
         }
         7 => {
@@ -314,6 +324,42 @@ pub fn gen_script(r: &mut Rng, family: usize, stream_len: usize, sys: u64) -> Sc
                 steps,
                 default: k,
                 family: "fault_every_boundary",
+                max_consecutive: MAX_CONSECUTIVE_FAULTS,
+            }
+        }
+        9 => {
+            // long runs of consecutive faults (a retry loop must not give up): 1-3 bursts of
+            // 9..=400 faults at cut positions walking with `sys`, also before the first byte
+            let mut steps = vec![];
+            let nb = r.range(1, 3);
+            let mut at = (sys as usize % len).max(1);
+            if r.chance(1, 3) {
+                at = 0;
+            }
+            let mut longest = 0u32;
+            for _ in 0..nb {
+                if at > 0 {
+                    steps.push(Step::Give(at));
+                }
+                let n = match r.below(6) {
+                    0 => r.range(9, 20),
+                    1 => r.range(60, 70),
+                    2 => r.range(120, 135),
+                    3 => r.range(250, 260),
+                    4 => r.range(300, 400),
+                    _ => r.range(9, 300),
+                } as u32;
+                longest = longest.max(n);
+                for _ in 0..n {
+                    steps.push(Step::Fault);
+                }
+                at = 1 + r.usize_below(len.min(200));
+            }
+            Script {
+                steps,
+                default: if r.chance(1, 2) { usize::MAX } else { 1 + r.usize_below(64) },
+                family: "fault_burst",
+                max_consecutive: longest,
             }
         }
         _ => {
@@ -338,6 +384,7 @@ pub fn gen_script(r: &mut Rng, family: usize, stream_len: usize, sys: u64) -> Sc
                 steps,
                 default: 1 + r.usize_below(50),
                 family: "random_mix",
+                max_consecutive: MAX_CONSECUTIVE_FAULTS,
             }
         }
     }
